@@ -15,14 +15,29 @@ _GEN2 = re.compile(r"<[^<>]*>")
 
 
 def strip_generics(p):
-    """`cw_storage_plus::Item::<'a, T>::load` -> `cw_storage_plus::Item::load`."""
+    """`cw_storage_plus::Item::<'a, T>::load` -> `cw_storage_plus::Item::load` (nested groups too)."""
     if p is None:
         return None
-    prev = None
-    while prev != p:
-        prev = p
-        p = _GEN.sub("", p)
-    return p
+    out = []
+    i = 0
+    n = len(p)
+    while i < n:
+        if p.startswith("::<", i):
+            depth = 0
+            j = i + 2
+            while j < n:
+                if p[j] == "<":
+                    depth += 1
+                elif p[j] == ">" and p[j - 1] != "-":
+                    depth -= 1
+                    if depth == 0:
+                        break
+                j += 1
+            i = j + 1
+            continue
+        out.append(p[i])
+        i += 1
+    return "".join(out)
 
 
 def short(p):
@@ -249,23 +264,69 @@ TRANSPARENT = {
     "std::iter::IntoIterator::into_iter",
     "std::slice::<impl [T]>::iter",
     "std::vec::Vec::iter",
+    "core::slice::iter",
+    "std::slice::to_vec",
+    "core::str::as_bytes",
 }
 
 UNWRAP_OK = {"std::result::Result::unwrap", "std::result::Result::expect"}
 UNWRAP_SOME = {"std::option::Option::unwrap", "std::option::Option::expect"}
 
 
+class T(tuple):
+    """hash-consed term: cached hash, one object per distinct term (so DAG-shaped terms stay linear)."""
+
+    def __hash__(self):
+        try:
+            return self._h
+        except AttributeError:
+            h = tuple.__hash__(self)
+            self._h = h
+            return h
+
+
+_INTERN = {}
+_RAW = {}
+
+
+def intern(t):
+    """canonical hash-consed form of a (possibly raw, nested) term."""
+    if isinstance(t, T) or not isinstance(t, tuple):
+        return t
+    r = _RAW.get(id(t))
+    if r is not None and r[0] is t:
+        return r[1]
+    k = T(intern(x) for x in t)
+    c = _INTERN.get(k)
+    if c is None:
+        _INTERN[k] = k
+        c = k
+    _RAW[id(t)] = (t, c)
+    if len(_RAW) > 400000:
+        _RAW.clear()
+    return c
+
+
 def subterms(t):
-    """every term inside t (terms are tuples whose first element is a kind string;
-    any other tuple is a plain sequence of terms)."""
-    if isinstance(t, tuple):
-        if t and isinstance(t[0], str):
-            yield t
-            for x in t[1:]:
-                yield from subterms(x)
+    """every DISTINCT term inside t, each once (terms are tuples whose first element is a kind
+    string; any other tuple is a plain sequence of terms)."""
+    t = intern(t)
+    seen = set()
+    stack = [t]
+    while stack:
+        x = stack.pop()
+        if not isinstance(x, tuple) or id(x) in seen:
+            continue
+        seen.add(id(x))
+        if x and isinstance(x[0], str):
+            yield x
+            for y in reversed(x[1:]):
+                if isinstance(y, tuple):
+                    stack.append(y)
         else:
-            for x in t:
-                yield from subterms(x)
+            for y in reversed(x):
+                if isinstance(y, tuple):
+                    stack.append(y)
 
 
 def contains(t, pred):
@@ -275,14 +336,17 @@ def contains(t, pred):
     return False
 
 
-def fmt(t, depth=0):
-    """human readable rendering of a term (diagnostics and evidence samples)."""
+def fmt(t, depth=0, _budget=None):
+    """human readable rendering of a term (diagnostics and evidence samples); bounded size."""
+    if _budget is None:
+        _budget = [4000]
     if not isinstance(t, tuple) or not t:
         return str(t)
-    if depth > 12:
+    if depth > 12 or _budget[0] <= 0:
         return "…"
+    _budget[0] -= 8
     k = t[0]
-    f = lambda x: fmt(x, depth + 1)
+    f = lambda x: fmt(x, depth + 1, _budget)
     if k == "param":
         return "arg%d%s" % (t[1], ("(" + t[2] + ")") if len(t) > 2 and t[2] else "")
     if k == "field":
@@ -501,7 +565,7 @@ class Terms:
 
     def operand(self, op, bb, idx):
         if "k" in op:
-            return self.const_term(op["k"])
+            return intern(self.const_term(op["k"]))
         pl = op.get("c") or op.get("m")
         if pl is None:
             return ("unknown", json.dumps(op)[:60])
@@ -515,7 +579,7 @@ class Terms:
                 return ("cycle", pl["s"])
             return v
         self.memo[key] = None
-        t = self._place(pl, bb, idx)
+        t = intern(self._place(pl, bb, idx))
         self.memo[key] = t
         return t
 
@@ -680,6 +744,9 @@ class Terms:
         return ("unknown",)
 
     def rvalue(self, rv, bb, idx):
+        return intern(self._rvalue(rv, bb, idx))
+
+    def _rvalue(self, rv, bb, idx):
         if "use" in rv:
             return self.operand(rv["use"], bb, idx)
         if "ref" in rv:
@@ -710,6 +777,9 @@ class Terms:
         return ("unknown", json.dumps(rv)[:80])
 
     def call_term(self, t, bb):
+        return intern(self._call_term(t, bb))
+
+    def _call_term(self, t, bb):
         idx = len(self.b.blocks[bb]["stmts"])
         nm = call_name(t)
         args = tuple(self.operand(a, bb, idx) for a in t["args"])
@@ -739,25 +809,37 @@ class Terms:
             if blk["term"]["k"] == "return":
                 ts.append(self.place({"l": 0, "p": [], "s": "_0"}, bi, len(blk["stmts"])))
         if not ts:
-            return ("noreturn",)
-        return self._phi(ts)
+            return intern(("noreturn",))
+        return intern(self._phi(ts))
+
+
+_NORM = {}
 
 
 def norm(t):
     """normalise a term for identity comparison: `?`-payloads, drop the resolved-text of calls
     and the debug names of parameters."""
-    if isinstance(t, tuple):
-        if t and isinstance(t[0], str):
-            k = t[0]
-            if k == "payload":
-                base = norm(t[1])
-                if base[0] == "trybranch":
-                    base = base[1]
-                return ("payload", base, t[2])
-            if k == "call":
-                return ("call", t[1], norm(t[2]))
-            if k == "param":
-                return ("param", t[1])
-            return (k,) + tuple(norm(x) for x in t[1:])
-        return tuple(norm(x) for x in t)
-    return t
+    t = intern(t)
+    if not isinstance(t, tuple):
+        return t
+    r = _NORM.get(id(t))
+    if r is not None and r[0] is t:
+        return r[1]
+    if t and isinstance(t[0], str):
+        k = t[0]
+        if k == "payload":
+            base = norm(t[1])
+            if base[0] == "trybranch":
+                base = base[1]
+            out = ("payload", base, t[2])
+        elif k == "call":
+            out = ("call", t[1], norm(t[2]))
+        elif k == "param":
+            out = ("param", t[1])
+        else:
+            out = (k,) + tuple(norm(x) for x in t[1:])
+    else:
+        out = tuple(norm(x) for x in t)
+    out = intern(out)
+    _NORM[id(t)] = (t, out)
+    return out
